@@ -153,6 +153,56 @@ def _refers_to(node, fn):
     return False
 
 
+def _checkpoint_form(ctx, cls, ce, commit):
+    """the checkpointing function on its symbolic normal form: every path makes one awaited emission of its batch parameter D
+    with metadata [{'ref': RefCounter(cb=<commits D>, loop=self.loop)}], where <commits D> is `lambda: commit(D)`,
+    partial(commit, D), or a zero-argument closure of this function whose free batch variable is D"""
+    from ..symexpr import SymEval
+    recs = [r for r in SymEval(ctx.model, cls).run(ce) if not r.raised]
+    if not recs:
+        return False, 'the checkpointing function has no completing path'
+    params = [p_ for p_ in ce.params() if p_ != 'self']
+    base, why = commit_target(ctx, cls, commit)
+    if base is None:
+        return False, 'the commit function does not commit a batch: ' + why
+    cparams = [p_ for p_ in commit.params() if p_ != 'self']
+    for r in recs:
+        if len(r.emits) != 1:
+            return False, 'a path of the checkpointing function emits %d times' % len(r.emits)
+        d, md = r.emits[0][0], r.emits[0][1]
+        D = src(d)
+        if D not in params:
+            return False, 'what is emitted (%s) is not the batch handed to the checkpointing function' % D
+        if not (isinstance(md, ast.List) and len(md.elts) == 1 and isinstance(md.elts[0], ast.Dict) and len(md.elts[0].keys) == 1
+                and isinstance(md.elts[0].keys[0], ast.Constant) and md.elts[0].keys[0].value == 'ref'):
+            return False, "the batch is not emitted with metadata=[{'ref': <reference counter>}] (found %s)" % (src(md) if md is not None else None)
+        rcall = md.elts[0].values[0]
+        if not (isinstance(rcall, ast.Call) and src(rcall.func) in ('RefCounter', 'core.RefCounter')):
+            return False, "the 'ref' travelling with the batch is %s, not a RefCounter created for it" % src(rcall)
+        cb = next((k.value for k in rcall.keywords if k.arg == 'cb'), rcall.args[1] if len(rcall.args) > 1 else None)
+        loop = next((k.value for k in rcall.keywords if k.arg == 'loop'), rcall.args[2] if len(rcall.args) > 2 else None)
+        init = next((k.value for k in rcall.keywords if k.arg == 'initial'), rcall.args[0] if rcall.args else None)
+        if init is not None and not (isinstance(init, ast.Constant) and init.value == 0):
+            return False, 'the RefCounter does not start at 0'
+        okcb = False
+        if isinstance(cb, ast.Lambda) and not (cb.args.args or cb.args.vararg or cb.args.kwarg or cb.args.kwonlyargs):
+            c = cb.body
+            okcb = isinstance(c, ast.Call) and _refers_to(c.func, commit) and [src(a) for a in c.args] == [D] and not c.keywords \
+                and cparams[:1] == [base]
+        elif isinstance(cb, ast.Call) and src(cb.func) in ('partial', 'functools.partial') and len(cb.args) == 2 and not cb.keywords:
+            okcb = _refers_to(cb.args[0], commit) and src(cb.args[1]) == D and cparams[:1] == [base]
+        elif cb is not None and _refers_to(cb, commit) and isinstance(cb, (ast.Name, ast.Attribute)):
+            # a zero-argument closure of the checkpointing function: its free batch variable is this function's batch
+            okcb = not cparams and commit.parent is ce and base == D
+        if not okcb:
+            return False, 'the callback (%s) does not commit the batch it was created for' % (src(cb) if cb is not None else None)
+        if loop is None or src(loop) != 'self.loop':
+            return False, 'the RefCounter is not bound to self.loop'
+        if 0 not in r.awaited:
+            return False, 'the checkpointing function does not await the emission'
+    return True, ''
+
+
 def check_commit_via_ref(ctx, R):
     cls, _ = _fkb(ctx)
     ccon = cls.module.name + '.' + cls.name
@@ -191,32 +241,11 @@ def check_commit_via_ref(ctx, R):
     cb = next((k.value for k in rc.keywords if k.arg == 'cb'), None)
     loop = next((k.value for k in rc.keywords if k.arg == 'loop'), None)
     okref, detail = True, ''
-    part_param = next((p_ for p_ in ce.params() if p_ != 'self'), None)
     in_cb = cb is not None and refs and all(any(n is x for x in ast.walk(cb)) for _, n in refs)
-    cb_arg_ok = cb is not None and any(isinstance(c, ast.Call) and _refers_to(c.func, commit) and c.args
-                                       and src(c.args[0]) == part_param for c in ast.walk(cb))
     if not in_cb:
         okref, detail = False, 'the commit function is referenced outside the cb= of the RefCounter'
-    elif not cb_arg_ok:
-        okref, detail = False, 'the callback does not commit the batch it was created for'
-    elif loop is None or src(loop) != 'self.loop':
-        okref, detail = False, 'the RefCounter is not bound to self.loop'
     else:
-        ref_name = next((t.id for s_ in own_nodes(ce.node) if isinstance(s_, ast.Assign) and s_.value is rc
-                         for t in s_.targets if isinstance(t, ast.Name)), None)
-        ems = [n for n in own_nodes(ce.node) if isinstance(n, ast.Call) and _attr_call(n, '_emit')]
-        okem = False
-        for e in ems:
-            md = next((k.value for k in e.keywords if k.arg == 'metadata'), e.args[1] if len(e.args) > 1 else None)
-            if e.args and src(e.args[0]) == part_param and md is not None and isinstance(md, ast.List) and len(md.elts) == 1 \
-                    and isinstance(md.elts[0], ast.Dict) and [src(k) for k in md.elts[0].keys] == ["'ref'"] \
-                    and (src(md.elts[0].values[0]) == ref_name or md.elts[0].values[0] is rc):
-                okem = True
-        if not okem:
-            okref, detail = False, "the batch is not emitted with metadata=[{'ref': <that counter>}]"
-        awaited = any(isinstance(n, (ast.Yield, ast.Await)) and any(x in ems for x in ast.walk(n)) for n in own_nodes(ce.node))
-        if okem and not awaited:
-            okref, detail = False, 'the checkpointing function does not await the emission'
+        okref, detail = _checkpoint_form(ctx, cls, ce, commit)
     R.ob('COMMIT-ONLY-VIA-REF', ctx.construct(ce), 'refcounter', okref, detail, ctx.where(ce, ce.node.lineno))
     # every batch handed out goes through the checkpointing function
     okloop, where = False, None
@@ -236,149 +265,364 @@ def check_commit_via_ref(ctx, R):
          ctx.where(where[0], where[1].lineno) if where else '%s:%d' % (cls.file, cls.node.lineno))
 
 
+def _tuple_index(n):
+    """(base expression, position) when the symbolic value n is element `position` of a tuple `base`:
+    base[k], FIRST(base), REST(base)[k] = base[k + 1], base[j:][k] = base[j + k]"""
+    def compose(inner, k):
+        if isinstance(inner, ast.Call) and isinstance(inner.func, ast.Name) and inner.func.id == 'REST' and len(inner.args) == 1:
+            return compose(inner.args[0], k + 1)
+        if isinstance(inner, ast.Subscript) and isinstance(inner.slice, ast.Slice) and inner.slice.upper is None \
+                and inner.slice.step is None and isinstance(inner.slice.lower, ast.Constant) and isinstance(inner.slice.lower.value, int) \
+                and inner.slice.lower.value >= 0:
+            return compose(inner.value, k + inner.slice.lower.value)
+        return inner, k
+    if isinstance(n, ast.Call) and isinstance(n.func, ast.Name) and n.func.id == 'FIRST' and len(n.args) == 1:
+        return compose(n.args[0], 0)
+    if isinstance(n, ast.Subscript) and isinstance(n.slice, ast.Constant) and isinstance(n.slice.value, int) and n.slice.value >= 0:
+        return compose(n.value, n.slice.value)
+    return None
+
+
+def commit_target(ctx, cls, commit):
+    """what the commit function commits, on its symbolic normal form: (batch name, detail) - the batch variable B when every
+    path calls consumer.commit(offsets=[TopicPartition(B[1], B[2], B[5] + 1)]), else (None, why not)"""
+    from ..symexpr import SymEval
+    recs = [r for r in SymEval(ctx.model, cls).run(commit) if not r.raised]
+    if not recs:
+        return None, 'the commit function has no completing path'
+    base = None
+    for r in recs:
+        cms = [c for c, _s, _l in r.calls if isinstance(c, ast.Call) and _attr_call(c, 'commit') and 'consumer' in src(c.func.value)]
+        if len(cms) != 1:
+            return None, 'a path of the commit function calls consumer.commit %d times' % len(cms)
+        off = next((k.value for k in cms[0].keywords if k.arg == 'offsets'), None)
+        if not (isinstance(off, (ast.List, ast.Tuple)) and len(off.elts) == 1 and isinstance(off.elts[0], ast.Call)
+                and src(off.elts[0].func).endswith('TopicPartition') and len(off.elts[0].args) == 3 and not off.elts[0].keywords):
+            return None, 'commit() is not given offsets=[TopicPartition(topic, partition, offset)] (found %s)' % (src(off) if off is not None else None)
+        a = off.elts[0].args
+        t0, t1 = _tuple_index(a[0]), _tuple_index(a[1])
+        t2 = None
+        if isinstance(a[2], ast.BinOp) and isinstance(a[2].op, ast.Add):
+            for x, y in ((a[2].left, a[2].right), (a[2].right, a[2].left)):
+                if isinstance(y, ast.Constant) and y.value == 1 and _tuple_index(x):
+                    t2 = _tuple_index(x)
+        shown = 'TopicPartition(%s)' % ', '.join(src(x) for x in a)
+        if not (t0 and t1 and t2):
+            return None, 'commit builds %s; expected (batch[1], batch[2], batch[5] + 1): topic, partition, last offset + 1' % shown
+        if (t0[1], t1[1], t2[1]) != (1, 2, 5) or len({src(t0[0]), src(t1[0]), src(t2[0])}) != 1 or not isinstance(t0[0], ast.Name):
+            return None, 'commit builds %s; expected (batch[1], batch[2], batch[5] + 1): topic, partition, last offset + 1' % shown
+        if base not in (None, t0[0].id):
+            return None, 'the paths of the commit function commit different batches'
+        base = t0[0].id
+    return base, ''
+
+
 def check_tuple_layout(ctx, R):
+    """the 6-tuple is read off the let-normal form of the planning loop, the commit off the commit function's normal form,
+    the unpacking function off from_kafka_batched's return values: names, temporaries and helper extraction are transparent"""
+    from ..symexpr import SymEval
     M = ctx.model
     cls, _ = _fkb(ctx)
-    K = kafka_names(cls)
-    F, app = K['F'], K['app']
+    F, loop, recs = planning_iteration(ctx, cls)
     con = ctx.construct(F)
-    elts = [src(e) for e in app.args[0].elts]
     gmb = M.function('streamz.sources', 'get_message_batch')
     params = gmb.params()
-    role = {'self.consumer_params': 'kafka_params', 'self.topic': 'topic', K['part']: 'partition', 'self.keys': 'keys',
-            K['start']: 'low'}
-    got = []
-    for i, e in enumerate(elts):
-        if e in role:
-            got.append(role[e])
-        elif i == 5 and K['end'] is not None:
-            got.append('high')
-        else:
-            got.append('?' + e)
-    ok = got == params[:len(got)] and len(got) == 6
-    R.ob('TUPLE-LAYOUT', con, 'tuple-vs-get_message_batch', ok,
-         'batch tuple roles %s do not match get_message_batch%s' % (got, tuple(params)), ctx.where(F, app.lineno))
+    part = loop.target.id
+    role = {'self.consumer_params': 'kafka_params', 'self.topic': 'topic', part: 'partition', 'self.keys': 'keys'}
+    bad, n = None, 0
+    for r in recs:
+        K = _Canon(r, part)
+        for apos, tup in _batch_appends(r):
+            n += 1
+            got = []
+            fs = K.facts(apos)
+            for i, e in enumerate(tup.elts):
+                t = src(e).replace(' ', '')
+                if i < 4:
+                    got.append(role.get(t, '?' + t))
+                elif i == 4:
+                    got.append('low' if _start_ok(K, K(e), fs) else '?' + K(e))
+                else:
+                    if isinstance(e, ast.Name) and e.id[:1] == 'C' and e.id[1:].isdigit():
+                        e = r.calls[int(e.id[1:])][0]
+                    last = isinstance(e, ast.BinOp) and isinstance(e.op, ast.Sub) and isinstance(e.right, ast.Constant) and e.right.value == 1 \
+                        and _end_ok(K(tup.elts[4]), K(e.left), fs)[0]
+                    got.append('high' if last else '?' + K(e))
+            if got != params[:6] and bad is None:
+                bad = got
+    if n == 0:
+        raise AnalysisError('FromKafkaBatched: no path of the planning loop appends a 6-tuple (unrecognised spelling)')
+    R.ob('TUPLE-LAYOUT', con, 'tuple-vs-get_message_batch', bad is None,
+         'batch tuple roles %s do not match get_message_batch%s (last component: the inclusive last offset end - 1)' % (bad, tuple(params)),
+         ctx.where(F, loop.lineno), None, n)
     cudf = M.function('streamz.sources', 'get_message_batch_cudf', required=False)
     if cudf is not None:
         R.ob('TUPLE-LAYOUT', ctx.construct(cudf), 'same-signature', cudf.params()[:6] == params[:6],
              'get_message_batch_cudf%s differs from get_message_batch%s' % (tuple(cudf.params()), tuple(params)),
              ctx.where(cudf, cudf.node.lineno))
     fkb = M.function('streamz.sources', 'from_kafka_batched')
-    sm = [n for n in own_nodes(fkb.node) if isinstance(n, ast.Call) and _attr_call(n, 'starmap')]
-    oksm = bool(sm) and all(src(n.args[0]) in ('get_message_batch', 'get_message_batch_cudf') for n in sm if n.args)
-    R.ob('TUPLE-LAYOUT', ctx.construct(fkb), 'starmap', oksm, 'the batch tuples are not unpacked into get_message_batch via starmap',
-         ctx.where(fkb, sm[0].lineno if sm else fkb.node.lineno))
+    rets = [r.ret for r in SymEval(M, None).run(fkb) if not r.raised]
+    oksm = bool(rets) and all(isinstance(v, ast.Call) and _attr_call(v, 'starmap') and len(v.args) == 1 and not v.keywords
+                              and src(v.args[0]) in ('get_message_batch', 'get_message_batch_cudf') for v in rets)
+    R.ob('TUPLE-LAYOUT', ctx.construct(fkb), 'starmap', oksm, 'the batch tuples are not unpacked into get_message_batch via starmap '
+         '(from_kafka_batched returns %s)' % sorted({src(v)[-60:] if v is not None else 'None' for v in rets})[:2],
+         ctx.where(fkb, fkb.node.lineno), None, len(rets))
     sites = _commit_fn(cls)
     if not sites:
         raise AnalysisError('FromKafkaBatched: no consumer.commit call found')
     commit = sites[0][0]
-    un = [n for n in own_nodes(commit.node) if isinstance(n, ast.Assign) and isinstance(n.targets[0], (ast.Tuple, ast.List))]
-    okc, detail = False, 'no unpack of the batch tuple in the commit function'
-    if un:
-        t = un[0]
-        p_ = next((x for x in commit.params() if x != 'self'), None)
-        if src(t.value).replace(' ', '') == '%s[1:]' % p_ and len(t.targets[0].elts) == 5:
-            names = [src(e) for e in t.targets[0].elts]
-            tp = [n for n in own_nodes(commit.node) if isinstance(n, ast.Call) and src(n.func).endswith('TopicPartition')]
-            if tp and len(tp[0].args) == 3:
-                a = [src(x).replace(' ', '') for x in tp[0].args]
-                okc = a[0] == names[0] and a[1] == names[1] and a[2] == names[4] + '+1'
-                detail = 'commit builds TopicPartition(%s) from unpack %s; expected (topic, partition, last offset + 1)' % (', '.join(a), names)
-        else:
-            detail = 'commit unpacks %s into %d names' % (src(t.value), len(t.targets[0].elts))
-    R.ob('TUPLE-LAYOUT', ctx.construct(commit), 'unpack', okc, detail, ctx.where(commit, commit.node.lineno))
+    base, detail = commit_target(ctx, cls, commit)
+    R.ob('TUPLE-LAYOUT', ctx.construct(commit), 'unpack', base is not None, detail, ctx.where(commit, commit.node.lineno))
     cm = sites[0][1]
     R.ob('TUPLE-LAYOUT', ctx.construct(commit), 'commit-offsets', any(k.arg == 'offsets' for k in cm.keywords),
          'commit() is not given offsets=[...]', ctx.where(commit, cm.lineno))
 
 
+# ----------------------------------------------------------------------------- the planning loop on its let-normal form
+_ITER_CACHE = {}
+
+
+def planning_iteration(ctx, cls):
+    """(function, loop, records): one iteration of the per-partition planning loop - the `for` loop whose body asks the consumer
+    for the watermarks - evaluated symbolically on its own (let-normal form: every call result is a symbol C<k>), wherever
+    the loop lives (poll_kafka or a helper method) and whatever its locals are called."""
+    import copy
+    from ..model import Func
+    from ..symexpr import SymEval
+    key = id(ctx.model)
+    if key in _ITER_CACHE and _ITER_CACHE[key][0] is ctx.model:
+        return _ITER_CACHE[key][1]
+    found = []
+    for f in scope(cls):
+        for l in own_nodes(f.node):
+            if isinstance(l, ast.For) and any(isinstance(x, ast.Call) and _attr_call(x, 'get_watermark_offsets')
+                                              for s_ in l.body for x in ast.walk(s_)):
+                inner = [m for m in ast.walk(l) if m is not l and isinstance(m, ast.For) and any(
+                    isinstance(x, ast.Call) and _attr_call(x, 'get_watermark_offsets') for s_ in m.body for x in ast.walk(s_))]
+                if not inner:
+                    found.append((f, l))
+    if len(found) != 1:
+        raise AnalysisError('FromKafkaBatched: expected exactly one loop asking for get_watermark_offsets, found %d '
+                            '(unrecognised spelling)' % len(found))
+    F, loop = found[0]
+    if not isinstance(loop.target, ast.Name):
+        raise AnalysisError('FromKafkaBatched: the planning loop does not iterate a plain partition variable')
+    node = ast.FunctionDef(name='_iteration', args=ast.arguments(
+        posonlyargs=[], args=[ast.arg(arg='self'), ast.arg(arg=loop.target.id)], kwonlyargs=[], kw_defaults=[], defaults=[],
+        vararg=None, kwarg=None), body=copy.deepcopy(loop.body), decorator_list=[], lineno=loop.lineno, col_offset=0,
+        end_lineno=loop.end_lineno)
+    ast.fix_missing_locations(node)
+    node.lineno = loop.lineno
+    fn = Func(F.module, F.qual + '.<iteration>', node, cls=cls, parent=F)
+    recs = [r for r in SymEval(ctx.model, cls, name_calls=True).run(fn) if not r.raised]
+    _ITER_CACHE.clear()
+    _ITER_CACHE[key] = (ctx.model, (F, loop, recs))
+    return F, loop, recs
+
+
+def _add(a, b):
+    return '(' + '+'.join(sorted([a, b])) + ')'
+
+
+class _Canon:
+    """role-normalised canonical text of a symbolic value of one record: pure max/min results are expanded, commutative
+    operands sorted, comparisons oriented as < / <=, and LOW / HIGH / CURSOR / MAX stand for the watermarks, the cursor
+    self.positions[partition] and self.max_batch_size"""
+
+    def __init__(self, r, part):
+        self.r = r
+        self.wk = None
+        for k, (c, _s, _l) in enumerate(r.calls):
+            if isinstance(c, ast.Call) and _attr_call(c, 'get_watermark_offsets'):
+                self.wk = k
+        self.roles = {'self.positions[%s]' % part: 'CURSOR', 'self.max_batch_size': 'MAX'}
+        if self.wk is not None:
+            self.roles['FIRST(C%d)' % self.wk] = 'LOW'
+            self.roles['C%d[0]' % self.wk] = 'LOW'
+            self.roles['C%d[1]' % self.wk] = 'HIGH'
+            self.roles['LAST(C%d)' % self.wk] = 'HIGH'
+
+    def __call__(self, n):
+        if n is None:
+            return 'None'
+        t = src(n).replace(' ', '')
+        if t in self.roles:
+            return self.roles[t]
+        if isinstance(n, ast.Name) and n.id[:1] == 'C' and n.id[1:].isdigit() and int(n.id[1:]) < len(self.r.calls):
+            c = self.r.calls[int(n.id[1:])][0]
+            if isinstance(c, ast.Call) and isinstance(c.func, ast.Name) and c.func.id in ('max', 'min', 'int'):
+                return self(c)
+            return n.id
+        if isinstance(n, ast.Call) and isinstance(n.func, ast.Name) and n.func.id in ('max', 'min') and not n.keywords:
+            args = n.args
+            if len(args) == 1 and isinstance(args[0], (ast.Tuple, ast.List)):
+                args = args[0].elts
+            return '%s(%s)' % (n.func.id, ','.join(sorted(self(a) for a in args)))
+        if isinstance(n, ast.BinOp) and isinstance(n.op, ast.Add):
+            return _add(self(n.left), self(n.right))
+        if isinstance(n, ast.BinOp) and isinstance(n.op, ast.Sub):
+            return '(%s-%s)' % (self(n.left), self(n.right))
+        if isinstance(n, ast.Compare) and len(n.ops) == 1:
+            a, b, op = self(n.left), self(n.comparators[0]), n.ops[0]
+            if isinstance(op, ast.Gt):
+                return '%s<%s' % (b, a)
+            if isinstance(op, ast.GtE):
+                return '%s<=%s' % (b, a)
+            if isinstance(op, ast.Lt):
+                return '%s<%s' % (a, b)
+            if isinstance(op, ast.LtE):
+                return '%s<=%s' % (a, b)
+            if isinstance(op, ast.Eq):
+                return '=='.join(sorted([a, b]))
+            return t
+        if isinstance(n, ast.Subscript):
+            return '%s[%s]' % (self(n.value), self(n.slice))
+        if isinstance(n, ast.Attribute):
+            return '%s.%s' % (self(n.value), n.attr)
+        if isinstance(n, ast.Tuple):
+            return '(%s)' % ','.join(self(e) for e in n.elts)
+        return t
+
+    def fact(self, text, outcome):
+        """positive canonical form of a decided test"""
+        try:
+            n = ast.parse(text, mode='eval').body
+        except SyntaxError:
+            return None
+        c = self(n)
+        if outcome:
+            return c
+        if isinstance(n, ast.Compare) and len(n.ops) == 1 and isinstance(n.ops[0], (ast.Gt, ast.GtE, ast.Lt, ast.LtE)):
+            m = c.split('<=') if '<=' in c else c.split('<')
+            if len(m) == 2:
+                return '%s<%s' % (m[1], m[0]) if '<=' in c else '%s<=%s' % (m[1], m[0])
+        return 'not ' + c
+
+    def facts(self, upto):
+        from .delivery import _conjuncts
+        out = set()
+        for kind, k in self.r.order[:upto]:
+            if kind == 'cond':
+                for t, o in _conjuncts(*self.r.conds[k]):
+                    f = self.fact(t, o)
+                    if f:
+                        out.add(f)
+        return out
+
+
+def _batch_appends(r):
+    """(position in the order, tuple node) of every 6-tuple appended on the record"""
+    out = []
+    for j, (kind, k) in enumerate(r.order):
+        if kind != 'call':
+            continue
+        c = r.calls[k][0]
+        if isinstance(c, ast.Call) and _attr_call(c, 'append') and len(c.args) == 1 and isinstance(c.args[0], ast.Tuple) \
+                and len(c.args[0].elts) == 6:
+            out.append((j, c.args[0]))
+    return out
+
+
+def _start_ok(K, s, facts):
+    """is `s` the first offset max(cursor, low watermark) - spelled with max() or path by path"""
+    if s == 'max(CURSOR,LOW)':
+        return True
+    if s == 'CURSOR':
+        return bool(facts & {'LOW<=CURSOR', 'LOW<CURSOR'})
+    if s == 'LOW':
+        return bool(facts & {'CURSOR<=LOW', 'CURSOR<LOW'})
+    return False
+
+
+def _end_ok(s, e, facts):
+    """is `e` the exclusive end min(high watermark, start + max_batch_size) - spelled with min() or path by path"""
+    T = _add(s, 'MAX')
+    if e == 'min(%s)' % ','.join(sorted(['HIGH', T])):
+        return True, ''
+    if e == 'HIGH':
+        if facts & {'HIGH<=%s' % T, 'HIGH<%s' % T}:
+            return True, ''
+        return False, 'the end of the range is the high watermark although it was not found <= start + max_batch_size (no clamp)'
+    if e == T:
+        if facts & {'%s<HIGH' % T, '%s<=HIGH' % T}:
+            return True, ''
+        return False, 'the end of the range is start + max_batch_size although the high watermark was not found beyond it'
+    return False, 'the end of the range is %s; expected min(high watermark, start + max_batch_size)' % e
+
+
+def _is_seed(K, j, c):
+    """`auto.offset.reset = latest`: a cursor that is still unset (-1001) starts at the high watermark (the test is only good
+    for the first store of the path: after it the cursor is no longer what was tested)"""
+    return K(c.value) == 'HIGH' and '-1001==CURSOR' in K.facts(j)
+
+
 def check_offset_algebra(ctx, R):
+    """decided on the let-normal form of one iteration of the planning loop: names, temporaries, guard clauses (`continue`),
+    min()/max() versus if-clamps and helper methods are transparent"""
     cls, _ = _fkb(ctx)
-    K = kafka_names(cls)
-    F, app, LOW, HIGH, PART, START, END = K['F'], K['app'], K['low'], K['high'], K['part'], K['start'], K['end']
+    F, loop, recs = planning_iteration(ctx, cls)
     con = ctx.construct(F)
-    defs = local_defs(F.node)
-    if START is None or PART is None or END is None:
-        raise AnalysisError('FromKafkaBatched: cannot identify the first-offset / end / partition variables of the batch tuple '
-                            '(unrecognised spelling)')
-    cursor = 'self.positions[%s]' % PART
-    import re
+    part = loop.target.id
+    bad = {}
+    n_app = n_noapp = 0
 
-    def N(node):
-        d = {k: v for k, v in defs.items() if k not in (LOW, HIGH, PART, START, END) and len(v) == 1 and v[0] is not None
-             and isinstance(v[0], ast.Subscript) and src(v[0]) == cursor}
-        t = norm(node, d).replace(' ', '')
-        for name, role_ in ((START, 'START'), (END, 'END'), (HIGH, 'HIGH'), (LOW, 'LOW')):
-            t = re.sub(r'(?<![\w.])' + re.escape(name) + r'(?![\w])', role_, t)
-        return t.replace(cursor.replace(' ', ''), 'CURSOR').replace('self.max_batch_size', 'MAX')
+    def fail(tok, detail, r):
+        bad.setdefault(tok, '%s  [path: %s]' % (detail, '; '.join('%s is %s' % c for c in r.conds if not c[0].startswith('<'))))
 
-    starts = defs.get(START, [])
-    okl = len(starts) == 1 and starts[0] is not None and N(starts[0]) in ('max(CURSOR,LOW)', 'max(LOW,CURSOR)')
-    R.ob('OFFSET-ALGEBRA', con, 'lowest', okl,
-         'the first offset of a batch is not max(cursor, low watermark): %s' % [src(v) for v in starts if v is not None],
-         ctx.where(F, starts[0].lineno if starts and starts[0] is not None else F.node.lineno))
-    guard = None
-    for n in own_nodes(F.node):
-        if isinstance(n, ast.If) and any(x is app for s_ in n.body for x in ast.walk(s_)):
-            guard = n
-    same = END == HIGH
-    gform = N(guard.test) if guard is not None else None
-    okg = gform in (('START<END',) if not same else ('START<HIGH', 'START<END'))
-    R.ob('OFFSET-ALGEBRA', con, 'guard', okg,
-         'a batch is emitted under %s; expected the strict end > start (no empty / negative ranges)' % (src(guard.test) if guard else None),
-         ctx.where(F, guard.lineno if guard else app.lineno))
-    adv = [s_ for s_ in (guard.body if guard else []) if isinstance(s_, ast.Assign) and src(s_.targets[0]) == cursor]
-    oka = len(adv) == 1 and src(adv[0].value) == END
-    R.ob('OFFSET-ALGEBRA', con, 'cursor-advance', oka,
-         'the cursor is not advanced to the exclusive end in the block that hands the range out (ranges would overlap or leave gaps)',
-         ctx.where(F, adv[0].lineno if adv else app.lineno))
-    R.ob('OFFSET-ALGEBRA', con, 'range', N(app.args[0].elts[4]) == 'START' and N(app.args[0].elts[5]) in ('(END-1)', '(HIGH-1)'),
-         'the range handed out is not [start, end - 1]', ctx.where(F, app.lineno))
-    # the end is the watermark clamped to start + max_batch_size, and nothing else
-    okh, detail, line = True, '', app.lineno
-    CL = ('(START+MAX)', '(MAX+START)')
-    if same:
-        clamp = 0
-        for n in own_nodes(F.node):
-            if not isinstance(n, ast.Assign) or n is K['wm']:
-                continue
-            for t in n.targets:
-                for e in ([t] if not isinstance(t, (ast.Tuple, ast.List)) else t.elts):
-                    if isinstance(e, ast.Name) and e.id == HIGH:
-                        v = N(n.value)
-                        line = n.lineno
-                        if isinstance(n.targets[0], (ast.Tuple, ast.List)):
-                            okh, detail = False, 'the watermark variable is unpacked again from %s' % src(n.value)
-                        elif v in CL:
-                            g = next((x for x in own_nodes(F.node) if isinstance(x, ast.If) and any(y is n for y in x.body)), None)
-                            gt = N(g.test) if g is not None else None
-                            if gt not in tuple(c + '<HIGH' for c in CL) + tuple(c + '<END' for c in CL):
-                                okh, detail = False, 'the clamp is applied under %s' % (src(g.test) if g else 'no guard')
-                            clamp += 1
-                        elif v in tuple('min(HIGH,%s)' % c for c in CL) + tuple('min(%s,HIGH)' % c for c in CL) + \
-                                tuple('min(END,%s)' % c for c in CL) + tuple('min(%s,END)' % c for c in CL):
-                            clamp += 1
-                        else:
-                            okh, detail = False, 'the end of the range is re-defined as %s' % src(n.value)
-        if okh and clamp != 1:
-            okh, detail = False, 'expected exactly one clamp of the end to start + max_batch_size, found %d' % clamp
-    else:
-        ends = defs.get(END, [])
-        if len(ends) != 1 or ends[0] is None:
-            okh, detail = False, 'the end of the range has %d definitions' % len(ends)
-        else:
-            v = N(ends[0])
-            line = ends[0].lineno
-            if v not in tuple('min(HIGH,%s)' % c for c in CL) + tuple('min(%s,HIGH)' % c for c in CL):
-                okh, detail = False, 'the end of the range is %s; expected min(high watermark, start + max_batch_size)' % src(ends[0])
-        redefs = [n for n in own_nodes(F.node) if isinstance(n, ast.Assign) and n is not K['wm'] and any(
-            isinstance(t, ast.Name) and t.id == HIGH for t in n.targets)]
-        if redefs:
-            okh, detail = False, 'the high watermark is re-assigned'
-    R.ob('OFFSET-ALGEBRA', con, 'high', okh, detail, ctx.where(F, line))
-    if guard is not None and starts and starts[0] is not None:
-        R.ob('OFFSET-ALGEBRA', con, 'order', K['wm'].lineno < starts[0].lineno <= guard.lineno,
-             'watermarks / start / guard are not evaluated in that order', ctx.where(F, guard.lineno))
+    for r in recs:
+        K = _Canon(r, part)
+        apps = _batch_appends(r)
+        cursor_stores = [(j, r.calls[k][0]) for j, (kind, k) in enumerate(r.order) if kind == 'call'
+                         and isinstance(r.calls[k][0], ast.Assign) and K(r.calls[k][0].targets[0]) == 'CURSOR']
+        other_cursor = [j for j, (kind, k) in enumerate(r.order) if kind == 'call' and isinstance(r.calls[k][0], ast.Call)
+                        and isinstance(r.calls[k][0].func, ast.Attribute) and 'self.positions' in src(r.calls[k][0].func.value)
+                        and r.calls[k][0].func.attr in ('__setitem__', 'insert', 'pop', 'clear', 'append', 'extend')]
+        if other_cursor:
+            fail('cursor-advance', 'the cursor list is changed by a method call inside the planning loop', r)
+        if K.wk is None:
+            if apps or cursor_stores:
+                fail('order', 'a range is handed out / the cursor moved on a path that never obtained the watermarks', r)
+            continue
+        wpos = next(j for j, (kind, k) in enumerate(r.order) if kind == 'call' and k == K.wk)
+        if len(apps) > 1:
+            fail('range', 'two ranges are handed out for one partition in one pass', r)
+            continue
+        if not apps:
+            n_noapp += 1
+            # the cursor may only be seeded (to the high watermark, when it is still unset); it is never advanced
+            for n_, (j, c) in enumerate(cursor_stores):
+                if not (n_ == 0 and _is_seed(K, j, c)):
+                    fail('cursor-advance', 'the cursor is set to %s on a path that hands out no range' % K(c.value), r)
+            continue
+        n_app += 1
+        apos, tup = apps[0]
+        fs = K.facts(apos)
+        s = K(tup.elts[4])
+        e5 = tup.elts[5]
+        if isinstance(e5, ast.Name) and e5.id[:1] == 'C' and e5.id[1:].isdigit():
+            e5 = r.calls[int(e5.id[1:])][0]
+        if not _start_ok(K, s, fs):
+            fail('lowest', 'the first offset of a batch is %s, not max(cursor, low watermark)' % s, r)
+        if not (isinstance(e5, ast.BinOp) and isinstance(e5.op, ast.Sub) and isinstance(e5.right, ast.Constant) and e5.right.value == 1):
+            fail('range', 'the range handed out is [%s, %s], not [start, end - 1]' % (s, K(e5)), r)
+            continue
+        e = K(e5.left)
+        ok, why = _end_ok(s, e, fs)
+        if not ok:
+            fail('high', why, r)
+        if ('%s<%s' % (s, e)) not in fs:
+            fail('guard', 'a range [%s, %s - 1] is handed out without the strict test end > start (empty / negative ranges)' % (s, e), r)
+        if wpos > apos:
+            fail('order', 'the range is handed out before the watermarks were obtained', r)
+        # the cursor: seeded before the start is computed (only when unset), advanced to the exclusive end exactly once
+        adv = [(j, K(c.value)) for n_, (j, c) in enumerate(cursor_stores) if not (n_ == 0 and _is_seed(K, j, c) and j < apos)]
+        if len(adv) != 1 or adv[0][1] != e:
+            fail('cursor-advance', 'the cursor is not advanced exactly once to the exclusive end %s of the range handed out '
+                                   '(found %s): ranges would overlap or leave gaps' % (e, [v for _, v in adv]), r)
+    if n_app == 0:
+        raise AnalysisError('FromKafkaBatched: no path of the planning loop appends a 6-tuple (unrecognised spelling)')
+    for tok in ('lowest', 'guard', 'cursor-advance', 'range', 'high', 'order'):
+        R.ob('OFFSET-ALGEBRA', con, tok, tok not in bad, bad.get(tok, ''), ctx.where(F, loop.lineno), None, n_app + n_noapp)
 
 
 def check_seed(ctx, R):
